@@ -44,7 +44,8 @@ func (e *swExp) String(kind string) string { return kind + ";" + strings.Join(e.
 func hx0(b []byte) string { return fmt.Sprintf("%x", b) }
 
 type swGen struct {
-	r *rand.Rand
+	r       *rand.Rand
+	prioTag bool // the next Ethernet frame is priority-tagged (VLAN id 0)
 }
 
 func (g *swGen) u(max uint64) uint64 {
@@ -206,8 +207,12 @@ func (g *swGen) packetOf(e *swExp, prefix string, choice int) []byte {
 	x := nb().raw(dst).raw(src)
 	e.raw(prefix+".HWDst", dst)
 	e.raw(prefix+".HWSrc", src)
-	if choice < 0 && g.r.Intn(3) == 0 {
+	if choice < 0 && (g.prioTag || g.r.Intn(3) == 0) {
 		pcp, dei, vid := g.r.Intn(8), g.r.Intn(2), 1+g.r.Intn(4094)
+		if g.prioTag || g.r.Intn(8) == 0 {
+			vid = 0 // priority-tagged frame (802.1p): a tag whose VLAN id is 0
+			g.prioTag = false
+		}
 		x.u16(0x8100, pcp<<13|dei<<12|vid)
 		e.num(prefix+".VLANID.PCP", uint64(pcp))
 		e.num(prefix+".VLANID.DEI", uint64(dei))
@@ -807,7 +812,8 @@ func (g *swGen) header(k int) (kind string, b []byte, exp string) {
 			}
 		}
 		return "p.ARP", pk[14:], e.String("p.ARP")
-	default: // a whole Ethernet frame (all payload kinds)
+	default: // a whole Ethernet frame (all payload kinds); one in six is priority-tagged
+		g.prioTag = g.r.Intn(6) == 0
 		pk := g.packetOf(e, "", -1)
 		for i, it := range e.items {
 			e.items[i] = strings.TrimPrefix(it, ".")
